@@ -18,7 +18,7 @@ NOT_APPLICABLE = {
     "C11": "one caller-supplied file handle written/read in a single pass with no retry or partial-write handling, and the property assigns no meaning to I/O faults; fault-free it is a pure function of the tree and options",
     "C15": "Walker.walk is a pure function of (tree, start, end); no state, fault or interleaving",
 }
-PENDING = {p: 'check not yet built in this round (planned, see DESIGN.md section 4)' for p in ('C04','C08','C12','C13','C14','C17','C18','C19','C20')}
+PENDING = {p: 'check not yet built in this round (planned, see DESIGN.md section 4)' for p in ('C08','C12','C13','C14','C19','C20')}
 
 TECH = {
     "C01": "deterministic simulation: seeded operation histories x hook-fault injection (once/multi/persistent, all 8 hooks, BaseException too) with fault-position sweeps, C01 invariant after every call, both ANYTREE_ASSERTIONS settings",
@@ -26,7 +26,15 @@ TECH = {
     "C03": "deterministic simulation: seeded histories x pre-hook fault enumeration (every position, multi, persistent) and invalid requests, pre/post snapshot equality with exactly-predicted known deviations",
     "C16": "deterministic simulation: recorded hook history (with in-hook observations) vs model-derived trace and per-node bracket automaton, under hook-fault injection on all 8 hooks",
 }
+TECH.update({
+    "C04": "deterministic simulation: seeded mutation histories (with refused and hook-aborted calls); every navigation attribute and util helper re-read on every node after every step and compared with the harness's own walks over the observed links",
+    "C17": "deterministic simulation: twin universes (plain vs adversarial special-method class) in lock-step under the same seeded history and fault plan; differential on every result plus a caller-frame probe in each overridden method",
+    "C18": "deterministic simulation: twin universes (NodeMixin vs LightNodeMixin+__slots__) in lock-step under the same seeded history and hook-fault plan; differential on outcome, structure, hook log and the query battery",
+})
 NOTE = {
+    "C04": "trusts the harness's reference walks (sim/queries.py ref_nav); the consistency guard (C01) runs first so no query is issued on a corrupt forest",
+    "C17": "differential: says the adversarial class behaves like the plain one, not that either is right (C02/C04 say that); probe attribution by caller frame file path",
+    "C18": "differential only: absolute correctness of either mixin is C01-C04/C16's business; exporters, search and util helpers are not in the statement and not compared",
     "C01": "trusts the harness's own closure walk (identity only, public .parent/.children); faults limited to hook-raised exceptions and invalid arguments as the property quantifies",
     "C02": "trusts the ForestModel (sim/model.py) as the statement's semantics; fault-free runs only, so no relaxation can hide an ordinary bug",
     "C03": "trusts the ForestModel's hook-trace prediction used to locate the failing step; the four open known findings are matched by exact predicted post-state (C03-1..3) or a narrow shape rule (C03-4, >= 2 failures in one children assignment)",
